@@ -74,26 +74,30 @@ class LogicalRecordBytes:
                 raise ValueError("Logical record too short for the requested bytes")
             is_last = end_pos == self._size
 
-        if n_bytes < 12:
-            raise ValueError(f"Logical Record segment body cannot be shorter than 12 bytes (got {n_bytes})")
-
         segment_attributes = SegmentAttributes(
             is_eflr=self._is_eflr,
             is_first=(start_pos == 0),
             is_last=is_last
         )
 
-        size = n_bytes + 4  # adding header size - 4 bytes
+        # a segment body must be at least 12 bytes long; a shorter one is filled up with (flagged) pad bytes
+        n_pad_bytes = max(12 - n_bytes, 0)
+
+        size = n_bytes + n_pad_bytes + 4  # adding header size - 4 bytes
         if size % 2:
             # total segment size must be even; if the number of bytes is odd, add a padding byte
             size += 1
+            n_pad_bytes += 1
+
+        if n_pad_bytes:
             segment_attributes.has_padding = True
 
         header_bytes = RepC.UNORM.convert(size) + segment_attributes.to_struct() + self._lr_type_struct
 
         new_bts = header_bytes + self._bts[start_pos:end_pos]
-        if segment_attributes.has_padding:
-            new_bts += self.padding  # add the promised padding byte
+        if n_pad_bytes:
+            # add the promised pad bytes; each of them (in particular the last one) holds the pad count
+            new_bts += n_pad_bytes * RepC.USHORT.convert(n_pad_bytes)
 
         return new_bts, size
 
@@ -117,12 +121,11 @@ class LogicalRecordBytes:
                 _sink(self._is_eflr, self._lr_type_struct, self._bts)
 
         start_pos = 0  # start from the beginning of the logical record bytes
-        remaining_size = self._size  # all bytes will be processed; self._size is assumed to always be >=12
+        remaining_size = self._size  # all bytes will be processed
 
-        if max_n_bytes < 24:
-            # minimal length of a logical record segment is 16 (of which 4 bytes are reserved for header),
-            # so for the splitting to work correctly max_n_bytes must be >= 24, which is twice the min segment body size
-            raise ValueError(f"Max size of a logical record segment body cannot be less than 24 (got {max_n_bytes})")
+        if max_n_bytes < 12:
+            # minimal length of a logical record segment is 16 (of which 4 bytes are reserved for header)
+            raise ValueError(f"Max size of a logical record segment body cannot be less than 12 (got {max_n_bytes})")
 
         while remaining_size > 0:
             n_bytes = min(remaining_size, max_n_bytes)  # size of the current (to be created) segment body
